@@ -28,6 +28,15 @@ def gen_cases(chk):
     rng = chk.rng
     thorough = chk.tier == "thorough"
     cases = []
+    # --- the decompressors' inline unpacker: every offset and width, every byte in each of the two positions (the two contributions are
+    # independent bit for bit), plus random pairs
+    for k in range(8):
+        for w in range(1, 8):
+            for b in range(256):
+                cases.append("iu %x %x %x 0" % (k, w, b))
+                cases.append("iu %x %x 0 %x" % (k, w, b))
+            for _ in range(8):
+                cases.append("iu %x %x %x %x" % (k, w, rng.getrandbits(8), rng.getrandbits(8)))
     # --- big-endian integer codecs
     for v in range(0, 65536, 1 if thorough else 1):
         cases.append("be 2 %x" % v)
@@ -143,6 +152,11 @@ def oracle(case, out):
     elif op == "arr":
         if d["back"] != a[4]:
             return "array comes back different"
+    elif op == "iu":
+        k, w, b0, b1 = (int(x, 16) for x in a[1:5])
+        want = ((b0 << 8 | b1) >> (16 - k - w)) & ((1 << w) - 1)
+        if int(d["v"], 16) != want or int(d["adv"]) != (0 if k + w < 8 else 1):
+            return "the decompressors' inline unpacker reads %s (cursor +%s) for the %d bits at bit %d of bytes %02x %02x, which are %x (cursor +%d)" % (d["v"], d["adv"], w, k, b0, b1, want, 0 if k + w < 8 else 1)
     elif op == "dyn":
         # the unpacker of this packer is inline in the decompressors (szd_float.c: k bits per value, most significant first,
         # continuing across bytes): decode the implementation's bytes that way
